@@ -370,7 +370,7 @@ theorem declConcat_rows (inner : Bool) (Cs : List (List Col)) (Is : List (List L
     (hne : Cs ≠ []) (hcols : ∀ C, C ∈ Cs → C ≠ []) :
     declConcat false inner (zipFrames Cs Is) = .frame (rowCols inner Cs) (commonIdx Is) := by
   unfold declConcat
-  simp only [Bool.false_eq_true, if_false, filter_hasColumns_zip Cs Is hcols]
+  simp only [Bool.false_eq_true, if_false, filter_hasColumns_zip Cs Is hcols, overrideNames_id]
   unfold pConcatRows
   have hnz : (zipFrames Cs Is).isEmpty = false := by
     cases Cs with
